@@ -123,6 +123,14 @@ func gen(r *harn.Rng, tier string) interface{} {
 				e.Target = "fresh"
 			case 1:
 				e.Target = "unpaired"
+			case 3:
+				if r.Bool(0.5) {
+					// a learned external address with its port lowered by a multiple of 16384: tables
+					// indexed by a few bits of the port must not confuse it with the mapping's own port
+					e.Target = fmt.Sprintf("low:%d:%d", r.Intn(6), r.Range(1, 3))
+				} else {
+					e.Target = fmt.Sprintf("map:%d", r.Intn(6))
+				}
 			case 2:
 				e.Target = fmt.Sprintf("alt:%d", r.Intn(6)) // a learned port on another address of the router
 			default:
@@ -819,6 +827,18 @@ func run(env *simrt.Env, sci interface{}) {
 				} else {
 					dst.IP = net.ParseIP("1.2.3.1")
 				}
+			case strings.HasPrefix(e.Target, "low:"):
+				if len(learned) == 0 || sc.OneToOne > 0 {
+					continue
+				}
+				var k, j int
+				fmt.Sscanf(e.Target, "low:%d:%d", &k, &j)
+				dst, _ = net.ResolveUDPAddr("udp", learned[k%len(learned)])
+				if dst.Port-j*0x4000 < 1 {
+					continue
+				}
+				dst.Port -= j * 0x4000
+				env.Probe("inbound-to-aliased-port")
 			case sc.OneToOne > 0:
 				var k int
 				fmt.Sscanf(e.Target, "map:%d", &k)
